@@ -8,6 +8,7 @@ PROFILE_SPEC = {
     'dec-whole': 'TraceDec', 'dec-cutsets': 'TraceDec', 'dec-random': 'TraceDec', 'dec-bom': 'TraceDec',
     'dec-replay': 'TraceDec', 'dec-deep': 'TraceDec',
     'mem': 'TraceMem',
+    'query-overflow': 'TraceMisc',
     'labels': 'TraceMisc', 'oneshot': 'TraceMisc', 'meta': 'TraceMisc', 'forbom': 'TraceMisc',
     'enc-sweep': 'TraceEnc', 'enc-pairs': 'TraceEnc', 'enc-cutsets': 'TraceEnc', 'enc-random': 'TraceEnc', 'enc-replay': 'TraceEnc',
 }
@@ -24,6 +25,76 @@ def record_and_validate(rep, binp, profile, seed, tier, extra=(), shards=None, b
         rep.sample_from(st['files'][0], n=1)
     handle_trace_violations(rep, results)
     return results
+
+
+def selftest(seed):
+    """demonstrate the binding: re-emit valid recorded traces with one field perturbed - each must be rejected"""
+    import random
+    binp = build_harness('default')
+    rnd = random.Random(seed)
+    outdir = RUN + '/selftest'
+    clean_dir(outdir)
+    ok = True
+    table = []
+
+    def run(kind, profile, spec, muts, marker):
+        nonlocal ok
+        d = '%s/%s' % (outdir, profile)
+        st = run_profile(binp, profile, d, seed, 'quick', shards=1, extra=['--only', 'Big5,ISO-2022-JP,windows-1252,UTF-8,UTF-16LE,gb18030'])
+        lines = open(st['files'][0]).read().strip().split('\n')[:6000]
+        base = validate_trace(spec, st['files'][0])
+        if base['viol']:
+            raise ToolError('selftest base trace has violations')
+        for name, f in muts:
+            idx = [i for i, l in enumerate(lines) if l.startswith(marker)]
+            rnd.shuffle(idx)
+            done = None
+            for i in idx:
+                e = json.loads(lines[i])
+                before = json.dumps(e)
+                f(e)
+                if json.dumps(e) != before:
+                    done = (i, e)
+                    break
+            if done is None:
+                table.append((kind, name, 'no applicable event'))
+                continue
+            ls = list(lines)
+            ls[done[0]] = json.dumps(done[1], separators=(',', ':'))
+            p_ = '%s/mut_%s_%s.ndjson' % (outdir, kind, name.replace(' ', '_'))
+            open(p_, 'w').write('\n'.join(ls) + '\n')
+            r = validate_trace(spec, p_)
+            tags = sorted(set(v['tag'] for v in r['viol']))
+            table.append((kind, name, ','.join(tags) or 'ACCEPTED'))
+            if not tags:
+                ok = False
+
+    dec_muts = [
+        ('written unit flipped', lambda e: e['out'].__setitem__(0, e['out'][0] ^ 1) if e['out'] and e['out'][0] < 0x7F else None),
+        ('ma+1', lambda e: e.__setitem__('ma', e['ma'] + 1) if e['res'] == 'M' else None),
+        ('ml+1', lambda e: e.__setitem__('ml', e['ml'] + 1) if e['res'] == 'M' else None),
+        ('dropped output unit', lambda e: (e['out'].pop(), e.__setitem__('written', e['written'] - 1)) if e['out'] and e['out'][-1] < 0x80 else None),
+        ('InputEmpty->OutputFull at end', lambda e: e.__setitem__('res', 'O') if e['res'] == 'I' and e['last'] and e['read'] == 0 and e['written'] == 0 and e['cap'] >= 4 else None),
+        ('encoding() changed', lambda e: e.__setitem__('enc', 'UTF-8' if e['enc'] != 'UTF-8' else 'Big5')),
+        ('written > cap', lambda e: e.__setitem__('cap', e['written'] - 1) if e['written'] > 0 else None),
+        ('guard band damaged', lambda e: e.__setitem__('guard', False)),
+        ('panic', lambda e: e.__setitem__('res', 'P') if e['cap'] >= 4 else None),
+        ('Malformed->InputEmpty', lambda e: (e.__setitem__('res', 'I'), e.__setitem__('ml', 0), e.__setitem__('ma', 0)) if e['res'] == 'M' and e['read'] == len(e['src']) else None),
+    ]
+    enc_muts = [
+        ('written byte flipped', lambda e: e['out'].__setitem__(0, e['out'][0] ^ 1) if e['out'] else None),
+        ('unmappable char changed', lambda e: e.__setitem__('um', e['um'] + 1) if e['res'] == 'U' else None),
+        ('dropped output byte', lambda e: (e['out'].pop(), e.__setitem__('written', e['written'] - 1)) if e['out'] else None),
+        ('has_pending_state flipped', lambda e: e.__setitem__('pending', not e['pending'])),
+        ('read inside a character', lambda e: e.__setitem__('read', e['read'] - 1) if e['read'] > 1 and e['res'] == 'O' and any(u > 0x7F for u in e['src'][:e['read']]) else None),
+        ('Unmappable->InputEmpty', lambda e: (e.__setitem__('res', 'I'), e.__setitem__('um', 0)) if e['res'] == 'U' and e['read'] == len(e['src']) else None),
+    ]
+    run('dec', 'dec-random', 'TraceDec', dec_muts, '{"ev":"D"')
+    run('enc', 'enc-random', 'TraceEnc', enc_muts, '{"ev":"E"')
+    for row in table:
+        print('%-4s %-34s -> %s' % row)
+    print('SELFTEST', 'ok: every perturbed trace was rejected' if ok else 'FAILED: a perturbed trace was accepted')
+    return 0 if ok else 1
 
 
 def devmc(argv):
@@ -117,11 +188,12 @@ def rv(rep, binp, profile, seed, tier, extra=(), tag=None, shards=None, build='d
     return results
 
 
-def mc_and_replay(rep, binp, module, consts, what, kind='dec', workers=4):
+def mc_and_replay(rep, binp, module, consts, what, kind='dec', workers=4, r=None):
     """TLC exhaustive on Layer I x monitor (design-level result), then spec -> impl: one exported behaviour per distinct
     reachable state is re-driven on the real code, validated by the monitor (violations are fatal) and compared call by
     call with the model's prediction (differences are MODEL-DRIFT notes, never alarms)."""
-    r = mc_run(module, consts, export=True)
+    if r is None:
+        r = mc_run(module, consts, export=True, workers=workers)
     rep.add_mc(r['name'], r, what)
     run = rep.cov['mc_runs'][-1]
     run['consts'] = {k: (sorted(v) if isinstance(v, (list, set)) else v) for k, v in consts.items()}
@@ -184,6 +256,65 @@ def mc_and_replay(rep, binp, module, consts, what, kind='dec', workers=4):
     return r
 
 
+def C(enc, mode, sink, repl, maxpend, caps, alphabet):
+    return dict(EncName=enc, ModeName=mode, SinkName=sink, Repl=repl, MaxPend=maxpend, Caps=caps, Alphabet=alphabet)
+
+
+# Layer I x monitor configurations (class-representative alphabets of real bytes, DESIGN.md Appendix C)
+MC_CHUNKING_QUICK = [
+    C('Big5', 'off', 'utf8', False, 3, [4, 5, 6, 7, 8, 64], [0x20, 0x40, 0x80, 0x87, 0x88, 0x62, 0xA4, 0xFE, 0xFF]),
+    C('Big5', 'off', 'utf16', True, 3, [2, 3, 4, 64], [0x20, 0x40, 0x80, 0x87, 0x88, 0x62, 0xA4, 0xFE, 0xFF]),
+    C('Shift_JIS', 'off', 'utf8', True, 3, [4, 5, 6, 64], [0x20, 0x3F, 0x40, 0x80, 0x81, 0x82, 0xA0, 0xA1, 0xDF, 0xFC, 0xFD]),
+    C('EUC-KR', 'off', 'utf8', False, 3, [4, 5, 6, 64], [0x20, 0x2C, 0x41, 0x5B, 0x80, 0x81, 0xA1, 0xB0, 0xC7, 0xFE, 0xFF]),
+    C('windows-1252', 'off', 'utf8', True, 3, [4, 5, 6, 64], [0x20, 0x41, 0x80, 0x81, 0xEF, 0xFF]),
+    C('windows-1253', 'off', 'utf16', False, 3, [2, 3, 64], [0x20, 0x41, 0x80, 0xAA, 0xD2, 0xFF]),
+    C('x-user-defined', 'off', 'utf8', False, 3, [4, 5, 64], [0x41, 0x80, 0xFF]),
+    C('ISO-2022-JP', 'off', 'utf8', True, 2, [4, 5, 64], [0x1B, 0x24, 0x28, 0x42, 0x4A, 0x41, 0x21, 0x80]),
+]
+MC_CHUNKING_THOROUGH = MC_CHUNKING_QUICK + [
+    C('Big5', 'off', 'utf8', True, 4, [4, 5, 6, 7, 8, 64], [0x20, 0x40, 0x7E, 0x80, 0x81, 0x87, 0x88, 0x62, 0xA4, 0xC8, 0xFE, 0xFF]),
+    C('Shift_JIS', 'off', 'utf16', False, 4, [2, 3, 4, 64], [0x20, 0x3F, 0x40, 0x7E, 0x80, 0x81, 0x82, 0x9F, 0xA0, 0xA1, 0xDF, 0xE0, 0xFC, 0xFD, 0xFF]),
+    C('EUC-KR', 'off', 'utf16', True, 4, [2, 3, 64], [0x20, 0x2C, 0x41, 0x5A, 0x5B, 0x80, 0x81, 0xA1, 0xB0, 0xC6, 0xC7, 0xFE, 0xFF]),
+    C('ISO-2022-JP', 'off', 'utf8', True, 3, [4, 5, 64], [0x1B, 0x24, 0x28, 0x42, 0x4A, 0x41, 0x21, 0x80]),
+    C('ISO-2022-JP', 'off', 'utf16', False, 3, [2, 3, 64], [0x0E, 0x1B, 0x24, 0x28, 0x40, 0x42, 0x49, 0x4A, 0x5C, 0x21]),
+    C('IBM866', 'off', 'utf8', False, 4, [4, 5, 6, 7, 64], [0x20, 0x3B, 0x41, 0x80, 0xB0, 0xFF]),
+]
+BOMA = [0x41, 0x80, 0xEF, 0xBB, 0xBF, 0xFE, 0xFF]
+MC_BOM_QUICK = [
+    C('windows-1252', 'sniff', 'utf8', True, 2, [4, 5, 6, 64], BOMA),
+    C('windows-1252', 'sniff', 'utf8', False, 2, [4, 5, 64], BOMA),
+    C('ISO-2022-JP', 'sniff', 'utf16', False, 2, [2, 3, 64], [0x41, 0x1B, 0xEF, 0xBB, 0xBF, 0xFE, 0xFF]),
+    C('ISO-2022-JP', 'sniff', 'utf8', True, 2, [4, 5, 64], [0x41, 0x1B, 0xEF, 0xBB, 0xBF, 0xFE, 0xFF]),
+    C('replacement', 'sniff', 'utf16', True, 2, [2, 3, 64], BOMA),
+    C('Big5', 'sniff', 'utf8', False, 2, [4, 5, 64], BOMA),
+    C('UTF-8', 'remove', 'utf8', True, 2, [4, 5, 64], [0x41, 0x80, 0xEF, 0xBB, 0xBF]),
+    C('x-user-defined', 'sniff', 'utf8', False, 2, [4, 5, 64], BOMA),
+    C('Shift_JIS', 'remove', 'utf16', False, 2, [2, 3, 64], BOMA),
+]
+MC_BOM_THOROUGH = MC_BOM_QUICK + [
+    C('windows-1252', 'sniff', 'utf8', True, 3, [4, 5, 6, 64], BOMA),
+    C('windows-1252', 'sniff', 'utf16', False, 3, [2, 3, 64], BOMA),
+    C('ISO-2022-JP', 'sniff', 'utf8', True, 3, [4, 5, 64], [0x41, 0x1B, 0x24, 0xEF, 0xBB, 0xBF, 0xFE, 0xFF]),
+    C('replacement', 'sniff', 'utf8', False, 3, [4, 5, 64], BOMA),
+    C('EUC-KR', 'sniff', 'utf8', True, 3, [4, 5, 64], BOMA),
+    C('x-user-defined', 'sniff', 'utf16', True, 3, [2, 3, 64], BOMA),
+    C('UTF-16LE', 'remove', 'utf16', False, 3, [2, 3, 64], [0x41, 0x00, 0xFE, 0xFF, 0xEF]),
+]
+
+
+def run_mc_set(rep, binp, configs, what):
+    """the MC runs are independent: run up to 4 TLC instances at a time, then replay each export"""
+    import concurrent.futures
+    t = time.time()
+    with concurrent.futures.ThreadPoolExecutor(max_workers=5) as ex:
+        futs = [ex.submit(mc_run, 'MC_Dec', cfg, ('NoViolation',), (), 'View', 3, 3000, True) for cfg in configs]
+        runs = [f.result() for f in futs]
+    log('TLC model checking of %d configurations in %.1fs' % (len(configs), time.time() - t))
+    for cfg, r in zip(configs, runs):
+        mc_and_replay(rep, binp, 'MC_Dec', cfg, what, r=r)
+    log('MC set (%d configurations) in %.1fs' % (len(configs), time.time() - t))
+
+
 def plan_C01(rep, seed, tier):
     binp = build_harness('default')
     rv(rep, binp, 'dec-whole', seed, tier, shards=32 if tier == 'thorough' else 16)
@@ -197,6 +328,8 @@ def plan_C02(rep, seed, tier):
     rv(rep, binp, 'dec-cutsets', seed, tier, shards=32 if tier == 'thorough' else 16)
     rv(rep, binp, 'dec-random', seed, tier)
     rv(rep, binp, 'dec-deep', seed, tier, shards=32 if tier == 'thorough' else 16)
+    run_mc_set(rep, binp, MC_CHUNKING_THOROUGH if tier == 'thorough' else MC_CHUNKING_QUICK,
+               'Layer I x DecoderMonitor: all Stage/Invoke interleavings, invariant NoViolation (prefix rule, completeness, spans, progress, no panic)')
     rep.cov['rule'] = ('all cut sets of every stream of length <= 3 (thorough: 4, plus seeded 5..7) over the per-encoding class alphabet x capacities min..min+3 and 64 '
                        'x 4 sinks x replacement x empty final call; seeded random histories with re-cuts, empty calls and queried capacities')
 
@@ -248,6 +381,7 @@ def plan_C07(rep, seed, tier):
     rv(rep, binp, 'dec-bom', seed, tier, extra=['--cap', 'mixq', '--thin', '4' if tier == 'quick' else '1'], tag='dec-bom-mixq')
     rv(rep, binp, 'enc-cutsets', seed, tier, extra=['--cap', 'query', '--thin', '2' if tier == 'quick' else '1'], tag='enc-cutsets-query')
     rv(rep, binp, 'enc-cutsets', seed, tier, extra=['--cap', 'mixq', '--thin', '2' if tier == 'quick' else '1'], tag='enc-cutsets-mixq')
+    rv(rep, binp, 'query-overflow', seed, tier)
     rep.cov['rule'] = ('calls of the cut-set / BOM-matrix histories are issued with dst.len() == the value the matching max_*_buffer_length query returns on '
                        'the same converter in its current state for the number of units passed (every call, or alternating with small capacities 0..min+1 so that '
                        'states behind an OutputFull - pending BB, half-read escapes, pending leads - are reached); OutputFull on a queried call is a violation')
@@ -278,6 +412,8 @@ def plan_C10(rep, seed, tier):
     binp = build_harness('default')
     rv(rep, binp, 'dec-bom', seed, tier, shards=32)
     rv(rep, binp, 'forbom', seed, tier, shards=4)
+    run_mc_set(rep, binp, MC_BOM_THOROUGH if tier == 'thorough' else MC_BOM_QUICK,
+               'Layer I (DecoderLifeCycle automaton) x DecoderMonitor with the BOM wrapper oracle: all splits of potential BOMs, last anywhere, invariant NoViolation')
     rep.cov['rule'] = ('40 nominal encodings x 3 BOM modes x every prefix of length 0..3 over {EF,BB,BF,FE,FF,41,80} x 5 tails x all cut sets of the first 4 bytes '
                        'x capacities min..min+2 and 64 x both raw sinks x replacement x empty final call')
 
